@@ -51,6 +51,10 @@ class StallingRaw(io.RawIOBase):
         return n
 
 
+class ProjectionUnavailable(Exception):
+    """The recorder cannot see the pending rows of the pipeline (an internal of pyjelly was renamed): nothing can be concluded from this run."""
+
+
 def record_write_run(integ, entry, ptype, stmts, fs, preset, explicit_flow=False):
     """Run one real serializer pipeline; returns the event log.
     explicit_flow: the frame size is configured through an explicit FrameFlow object in SerializerOptions.flow (options.frame_size stays 250)."""
@@ -73,12 +77,17 @@ def record_write_run(integ, entry, ptype, stmts, fs, preset, explicit_flow=False
 
     def pending():
         s = the_stream()
-        return len(s.flow) if s is not None else 0
+        try:
+            return len(s.flow) if s is not None else 0
+        except (AttributeError, TypeError) as ex:
+            raise ProjectionUnavailable(f"Stream.flow: {ex}") from None
 
     def flush_enc():
         """Synthesize the `enc` event of the statement whose rows have been added since the last observation."""
         i = state["pulled"]
         if i > state["enc_done"]:
+            if the_stream() is None:       # a statement has been handed over, so the pipeline has built its Stream by now
+                raise ProjectionUnavailable("no Stream visible (local variable `stream` in the frame of flat_stream_to_frames)")
             total = state["frame_rows"] + pending()
             if not state["enrolled"]:                                   # flat_stream_to_frames enrolls after the first pull
                 events.append({"e": "enroll"})
@@ -169,6 +178,9 @@ def main(tier: str) -> int:
                         explicit = (bi + n) % 3 == 0 and fs != 250
                         try:
                             ev = record_write_run(integ, entry, c["PType"], stmts, fs, (c["MaxN"], c["MaxP"], c["MaxD"]), explicit_flow=explicit)
+                        except ProjectionUnavailable as ex:
+                            run.model_drift(f"write pipeline {entry} cannot be observed ({ex}): event log skipped")
+                            continue
                         except Exception as ex:  # noqa: BLE001
                             run.violation({"side": "write", "clause": "pipeline-raised", "integ": integ, "entry": entry}, f"{type(ex).__name__}: {ex}",
                                           {"statements": stmts, "frame_size": fs})
@@ -194,6 +206,9 @@ def main(tier: str) -> int:
             for entry in ("flat_stream_to_frames", "stream_frames"):
                 try:
                     ev = record_write_run(integ, entry, ptype, stmts, fs, (4000, 150, 32))
+                except ProjectionUnavailable as ex:
+                    run.model_drift(f"write pipeline {entry} cannot be observed ({ex}): event log skipped")
+                    continue
                 except Exception as ex:  # noqa: BLE001
                     run.violation({"side": "write", "clause": "pipeline-raised", "integ": integ, "entry": entry}, f"{type(ex).__name__}: {ex}", {"frame_size": fs})
                     continue
